@@ -369,22 +369,24 @@ def run(res):
         # the same object, refitted on fewer rows after it has answered interval queries: the bounds must follow the CURRENT n - edof / covariance
         if i % 2 == 0 and scn['n'] >= 6:
             k = max(3, (2 * scn['n']) // 3)
+            import copy as _copy
+            gam2 = _copy.deepcopy(gam)      # a refit that fails half-way leaves a model without statistics_: keep `gam` usable for the checks below
             try:
                 with warnings.catch_warnings(), np.errstate(all='ignore'):
                     warnings.simplefilter('ignore')
                     if scn['w'] is None:
-                        gam.fit(scn['X'][:k].copy(), scn['y'][:k].copy())
+                        gam2.fit(scn['X'][:k].copy(), scn['y'][:k].copy())
                     else:
-                        gam.fit(scn['X'][:k].copy(), scn['y'][:k].copy(), weights=scn['w'][:k].copy())
-                ref2 = Ref(gam, Xq)
-                ok2 = np.isfinite(gam.coef_).all() and np.isfinite(gam.statistics_['cov']).all() and (ref2.known or ref2.n - ref2.edof > 1e-6)
-            except ValueError:
+                        gam2.fit(scn['X'][:k].copy(), scn['y'][:k].copy(), weights=scn['w'][:k].copy())
+                ref2 = Ref(gam2, Xq)
+                ok2 = np.isfinite(gam2.coef_).all() and np.isfinite(gam2.statistics_['cov']).all() and (ref2.known or ref2.n - ref2.edof > 1e-6)
+            except (ValueError, KeyError):
                 ok2 = False
             if ok2:
                 res.count('refit of a queried model, intervals compared again')
-                d2 = dict(d, history='fit(all rows); interval queries; fit(first %d rows); confidence_intervals with the earlier levels' % k)
+                d2 = dict(d, history='fit(all rows); interval queries; deep copy; fit(first %d rows); confidence_intervals with the earlier levels' % k)
                 with np.errstate(all='ignore'):
-                    got = gam.confidence_intervals(Xq, quantiles=qs_ci)
+                    got = gam2.confidence_intervals(Xq, quantiles=qs_ci)
                 compare(res, ref2, got, list(range(len(ref2.coef))), False, True, qs_ci, 'confidence_intervals', d2, Xq, [], [], link, 'Gen_flags_confidence_intervals',
                         list(range(len(ref2.coef))), [0])
         if i < 12 or res.tier != 'quick':
